@@ -45,7 +45,6 @@ func treeSpecs() []Spec {
 		{Kind: KExpr, Pkg: z, Func: "Tree.Get", Match: "k == math.MaxUint64 || k == 0", Lean: "getKeyPanic", Out: o},
 		{Kind: KExpr, Pkg: z, Func: "Tree.set", Match: "idx >= maxKeys", Lean: "setIdxPanic", Out: o},
 		{Kind: KExpr, Pkg: z, Func: "Tree.set", Match: "n.key(idx) == 0", Lean: "setSlotEmpty", Out: o},
-		{Kind: KExpr, Pkg: z, Func: "Tree.set", Match: "n.numKeys() + 1", Lean: "setSlotCount", Out: o},
 		{Kind: KExpr, Pkg: z, Func: "Tree.get", Match: "idx == n.numKeys() || n.key(idx) == 0", Lean: "getNoChild", Out: o},
 		// Tree.compact / DeleteBelow
 		{Kind: KExpr, Pkg: z, Func: "Tree.compact", Match: "rem == 0 && i < N-1", Lean: "compactDropChild", Out: o},
